@@ -83,16 +83,25 @@ Fixpoint nodupb (l : list nat) : bool :=
   match l with [] => true | x :: r => negb (existsb (Nat.eqb x) r) && nodupb r end.
 Definition wf_case (c : case) : bool := nodupb (flat_map op_ids (fst c)).
 
-(* 0 ok.  1: M <> observed, the observed outcomes do not violate S where S constrains them (or the case is
-   malformed).  2: M <> observed and an observed outcome differs from S inside the guard.  3: self-check:
-   M = observed but M differs from S inside the guard (the refinement theorem would be false). *)
+(* every observed outcome must be the model's prediction, or S's outcome (an implementation that does better
+   than the modelled defects outside the guard is not reported) *)
+Fixpoint explained (ms ss xs : list obs) : bool :=
+  match ms, ss, xs with
+  | [], [], [] => true
+  | m :: ms', s :: ss', x :: xs' => (obs_eqb m x || obs_eqb s x) && explained ms' ss' xs'
+  | _, _, _ => false
+  end.
+(* 0 ok.  1: some observed outcome is neither M's nor S's, and the observed outcomes do not violate S where S
+   constrains them (or the case is malformed).  2: some observed outcome is neither M's nor S's and an
+   observed outcome differs from S inside the guard.  3: self-check: the observed outcomes are explained but
+   M itself differs from S inside the guard (the refinement theorem would be false). *)
 Definition check_case (c : case) : N :=
   let ops := fst c in
   let m := runM FUEL minit ops in
   let s := runS FUEL sinit ops in
   let gs := guards FUEL minit true ops in
   if negb (wf_case c) then 1%N
-  else if obss_eqb m (snd c) then (if Nat.eqb (bad_count gs s m) 0 then 0%N else 3%N)
+  else if explained m s (snd c) then (if Nat.eqb (bad_count gs s m) 0 then 0%N else 3%N)
   else if Nat.eqb (bad_count gs s (snd c)) 0 then 1%N else 2%N.
 Fixpoint check_all_from (i : N) (cs : list case) : list (N * N) :=
   match cs with
@@ -105,3 +114,12 @@ Definition guard_count (cs : list case) : N :=
   N.of_nat (fold_left (fun a c => a + constrained (guards FUEL minit true (fst c)) (runS FUEL sinit (fst c))) cs 0).
 Definition outside_count (cs : list case) : N :=
   N.of_nat (fold_left (fun a c => a + (List.length (snd c) - constrained (guards FUEL minit true (fst c)) (runS FUEL sinit (fst c)))) cs 0).
+(* observed outcomes that differ from S where S is binding, guarded or not: outside the guard these are the
+   manifestations of the known finding (inside they make code 2) *)
+Fixpoint dev_count (ss xs : list obs) : nat :=
+  match ss, xs with
+  | s :: ss', x :: xs' => (if comparable (fst s) && negb (obs_eqb s x) then 1 else 0) + dev_count ss' xs'
+  | _, _ => 0
+  end.
+Definition deviation_count (cs : list case) : N :=
+  N.of_nat (fold_left (fun a c => a + dev_count (runS FUEL sinit (fst c)) (snd c)) cs 0).
